@@ -239,11 +239,13 @@ func ruleReleasers(c *Ctx, rule string, part string) {
 				rs := calls(fn, "(*FloatingIPPlugin).reserveIP")
 				okR := false
 				for _, r := range rs {
-					if ok, dec := onlyAfterSuccess(fn, s, r); ok && dec && callArgs(r)[0] == callArgs(r)[1] {
+					if ok, dec := onlyAfterSuccess(fn, s, r); ok && dec && sameAccess(callArgs(r)[0], callArgs(r)[1]) {
 						okR = true
-						for _, m := range final {
-							after := c.reachAfter(s, newCut().instr(r))
-							c.ob(rule, fn, "node and uid cleared after unassign before "+shortCallee(m), m, true && (!after.has(m) || !reachableOnlyVia(c, fn, s, r, m)), "reserveIP(key,key) lies between a successful unassign and the freeing call")
+						for _, t := range errTests(s) {
+							after := reachFromEdge(t.OkEdge, newCut().instr(r))
+							for _, m := range final {
+								c.ob(rule, fn, "node and uid cleared between a successful unassign and "+shortCallee(m), m, !after.has(m), "from the err==nil edge of the unassign the freeing call is reachable only past reserveIP(key,key)")
+							}
 						}
 					}
 				}
@@ -286,10 +288,6 @@ func stripStringCall(v ssa.Value) ssa.Value {
 	return v
 }
 
-// reachableOnlyVia: m reachable after s only by passing r
-func reachableOnlyVia(c *Ctx, fn *ssa.Function, s, r, m ssa.Instruction) bool {
-	return c.reachAfter(s, newCut().instr(r)).has(m)
-}
 
 // C04.R3 — fail-safe liveness test.
 func ruleLivenessFailSafe(c *Ctx, rule string) {
@@ -461,4 +459,36 @@ func allocHolds(b ssa.Value, v ssa.Value) bool {
 		}
 	}
 	return n == 1 && okAll
+}
+
+// sameAccess: the two values are the same SSA value or loads of the same access path from the same root.
+func sameAccess(a, b ssa.Value) bool {
+	if a == b {
+		return true
+	}
+	if la, ok := a.(*ssa.UnOp); ok && la.Op == token.MUL {
+		if lb, ok := b.(*ssa.UnOp); ok && lb.Op == token.MUL && la.X == lb.X {
+			return true
+		}
+	}
+	ra, pa := fieldPath(a)
+	rb, pb := fieldPath(b)
+	if len(pa) == 0 || len(pa) != len(pb) {
+		return false
+	}
+	for i := range pa {
+		if pa[i] != pb[i] {
+			return false
+		}
+	}
+	if ra == rb {
+		return true
+	}
+	// roots that are themselves loads of the same path
+	if len(pa) > 0 {
+		if _, ok := ra.(*ssa.UnOp); ok {
+			return sameAccess(ra, rb)
+		}
+	}
+	return false
 }
